@@ -11,6 +11,7 @@ NF = 999999
 IMPORTS = "Require Import V.model.RecordStore."
 THEOREMS = ["get_only_put_values", "settled_reads_latest", "late_notification_relists_refuted",
             "served_is_held_or_in_flight", "put_verified_has_no_size_gate", "disk_read_has_no_size_gate",
+            "cleanup_removes_from_all_views",
             "names_injective", "names_roundtrip", "store_constants"]
 RULE = ("a case is a whole history over 2-12 keys (32-byte random keys; adversarial: keys sharing their "
         "first 8 bytes (= same nonce), sharing long prefixes/suffixes, 1-byte keys, 128-byte keys whose file "
@@ -313,20 +314,38 @@ class Trace:
         self.burst = False
         self.pays = 0
         self.partial = False
+        self.range_set = None      # responsible range the history last set (not persisted across a restart)
+        self.threshold = o.get("consts", {}).get("max_records_count", 16384) // 10
+        self.no_eviction = c["cfg"]["max_records"] > len(c["keys"])
         self.flags = set()
 
     def steps(self):
         pre = self.o["d0"]
         for i, (op, st) in enumerate(zip(self.c["ops"], self.o["steps"])):
             post = st["dump"]
+            if op["op"] in ("set_range", "set_range_at"):
+                self.range_set = int(st["extra"])
             if post is None:
-                # bulk step without a dump: only op-level facts are tracked, state-based judgements are
-                # suspended for this history (self.partial)
-                self.partial = True
-                if op["op"] in ("put", "put_local"):
+                # bulk step without a dump.  When the capacity exceeds the key universe nothing can be evicted
+                # or refused, so the op-level facts suffice; otherwise state-based judgements are suspended
+                name = op["op"]
+                if name == "put" and self.no_eviction and st["out"].get("put") is True:
+                    k = op["k"]
+                    if self.last[k] == ("put", op["v"]) and self.unacked[k] > 0:
+                        self.partial = True          # could have been the same-value shortcut
+                    self.hist[k].add(op["v"])
+                    self.last[k] = ("put", op["v"])
+                    self.unacked[k] += 1
+                elif name in ("put", "put_local"):
                     self.hist[op["k"]].add(op["v"])
-                if op["op"] == "pay":
+                    self.partial = True
+                elif name == "settle":
+                    for k in range(self.nk):
+                        self.unacked[k] = 0
+                elif name == "pay":
                     self.pays += 1
+                elif name not in ("step", "get", "quote", "set_range", "set_range_at"):
+                    self.partial = True
                 continue
             self.account(op, st["out"], pre, post)
             yield i, op, st["out"], pre, post
@@ -373,7 +392,12 @@ class Trace:
             elif j < len(pre["chan"]):
                 self.deliver_one(pre["chan"][j], pre)
         elif name == "cleanup":
-            for e in pre_idx - post_idx:
+            # what clean-up removes is judged from the property, not from what left the index: every held
+            # record at or beyond the responsible range, once the store holds MAX_RECORDS_COUNT/10 records
+            gone = set(pre_idx - post_idx)
+            if len(pre_idx) >= self.threshold and self.range_set is not None:
+                gone |= {k for k in pre_idx if k < self.nk and self.dists[k] >= self.range_set}
+            for e in gone:
                 self.flags.add("cleanup-removal")
                 self.removed(e, pre)
         elif name == "pay":
@@ -394,6 +418,7 @@ class Trace:
                 self.relist_risk[k] = False
             self.pays = pre["metrics"][0] if pre["metrics"] is not None else 0
             self.burst = False
+            self.range_set = None
 
     def deliver_one(self, n, pre):
         code, k = n
@@ -470,6 +495,9 @@ def oracle(c, o):
                     v.append(("serves-record-neither-held-nor-in-flight",
                               "step %d (%s): get(key %d) returns value %s although the key is not listed and no write of it "
                               "is in flight (a record refused at capacity left in the read cache?)" % (i, op["op"], k, g)))
+        if sorted(b[1] for b in post["bydist"]) != [a for a, _ in post["idx"]]:
+            v.append(("listing-views-differ", "step %d (%s): the distance index holds keys %s..., the record index %s..."
+                      % (i, op["op"], sorted(b[1] for b in post["bydist"])[:6], [a for a, _ in post["idx"]][:6])))
         if post["idx"] != post["idx2"] or [a for a, _ in post["idx"]] != [k for k, b in enumerate(post["contains"]) if b]:
             v.append(("listing-views-differ", "step %d: record_addresses / record_addresses_ref / contains disagree" % i))
         if settled(post) and not crashed and not t.partial:
@@ -586,6 +614,24 @@ def gen(ctx):
         ops += [{"op": "get", "k": k} for k in range(nk)]
         cc = mk_case(rng, keys, vals, ops, 16384, rng.choice([1, 2, 2, 25]), "small-channel")
         cc["cfg"]["chan_cap"] = rng.choice([1, 1, 2, 3])
+        cases.append(cc)
+    # store-initiated removal: a store above the clean-up threshold (MAX_RECORDS_COUNT/10 = 1638 records, a global
+    # constant), a responsible range, the real cleanup_irrelevant_records, settle: the keys beyond the range are
+    # neither listed nor readable, the others still are
+    import os
+    for n in ([1640] if quick else [1638, 1640, 1700]):
+        if os.environ.get("VERIF_SKIP_BIG"):
+            continue
+        keys = gen_keys(rng, n, False)
+        vals = [bytes([0x91, 1, 7]), bytes([0x91, 1, 8])]
+        case_peer = bytes(rng.getrandbits(8) for _ in range(32))
+        byd = sorted(range(n), key=lambda k: py_distance(case_peer, keys[k]))
+        ops = [{"op": "put", "k": k, "v": 0, "t": 0, "nodump": True} for k in range(n)]
+        ops += [{"op": "settle"}, {"op": "set_range_at", "k": byd[(2 * n) // 3], "delta": rng.choice([-1, 0, 1]), "nodump": True},
+                {"op": "cleanup"}, {"op": "get", "k": byd[-1], "nodump": True}, {"op": "settle"},
+                {"op": "put", "k": byd[-2], "v": 1, "t": 0, "nodump": True}, {"op": "settle"}]
+        cc = mk_case(rng, keys, vals, ops, 16384, rng.choice([1, 25]), "cleanup-%d" % n)
+        cc["cfg"]["peer"] = case_peer.hex()
         cases.append(cc)
     # PARALLEL STRESS (oracle only): multi-thread runtime, 100+ validated puts of 256-512 KiB to distinct keys back
     # to back so that the write tasks of different keys truly overlap, notifications handled concurrently
